@@ -64,6 +64,8 @@ pub struct Bounds {
     pub fams: Vec<u8>,
     /// real long titles (e-commerce corpus, plain and decorated with accents / odd characters) with derived queries
     pub corpus: bool,
+    /// one tiny family per composable (base, mark) pair of each language
+    pub pairs: bool,
 }
 
 pub fn hl_sets(b: &Bounds) -> Vec<HlSet> {
@@ -90,6 +92,17 @@ pub fn hl_sets(b: &Bounds) -> Vec<HlSet> {
             let queries = word_queries(&lex, 2);
             let nq = queries.len() as u64;
             sets.push(HlSet { name: format!("lexicon:T<={}w x Q<=2w(all prefixes)", b.words), l, titles: Titles::Words { lex, maxw: b.words }, queries, derived: false, block: (100_000 / nq.max(1)).clamp(1, 2000) });
+        }
+    }
+    if b.pairs {
+        // every composable pair of the language on its own (C02: 'accent sequences the language knows how to compose appear composed')
+        for l in LANGS {
+            for (bs, m, _) in crate::refs::frozen_inventory(l) {
+                let c = if l.is_cyrillic() { 'т' } else { 't' };
+                let fam = vec![bs, m, c, ' '];
+                let queries = all_strings(&fam, 0, 2);
+                sets.push(HlSet { name: format!("pair U+{:04X}+U+{:04X}:T<=3xQ<=2", bs as u32, m as u32), l, titles: Titles::Chars { fam, lo: 0, hi: 3 }, queries, derived: false, block: 100 });
+            }
         }
     }
     if b.corpus {
